@@ -55,6 +55,16 @@ def make_form(rng, i, tier):
                     cells[c] = f"'{c}.sub_{t}_{i}' != ''"
             tt = t if t != "select_one" else f"select_one {next(iter(f.choices))}"
             f.survey.append(Row("q", tt, f"sub_{t}_{i}", cells))
+    if i % 3 == 2:
+        # a whole cell that is a yes/no word in each of the five expression columns (a constant calculation, a constraint switched off, a spreadsheet boolean)
+        words = list(YES)
+        for j, c in enumerate(["relevant", "required", "read_only", "constraint", "calculation"]):
+            t = rng.choice(["text", "integer", "calculate" if c == "calculation" else "decimal"])
+            cells = {} if t == "calculate" else {"label": f"yn {c}"}
+            cells[c] = rng.choice(words)
+            if rng.random() < 0.3:
+                cells[rng.choice([x for x in ["relevant", "required", "read_only", "constraint", "calculation"] if x != c])] = rng.choice(words)
+            f.survey.insert(rng.randint(0, len(f.survey)), Row("q", t, f"yn{i}_{j}", cells))
     if i % 5 == 0:
         f.entities = {"list_name": "ent", "label": "concat('e', '1')"}
         for r in [r for r in f.survey if r.kind == "q" and base_type(r) in ("text", "integer", "decimal")][:3]:
